@@ -4,7 +4,7 @@ import shutil
 from vlib import diffexec
 from vlib.loopgen import LoopGen
 from vlib.core import sighash
-from vlib.checks.c30 import classify_detail, innermost_loki_frame
+from vlib.checks.c30 import classify_detail, innermost_loki_frame, coarse
 
 PID = 'C31'
 LEVEL = 'exploration'
@@ -39,8 +39,8 @@ REQUIRED_COUNTERS = {'transformed_equal': 100}
 ASSUMPTIONS = ['gfortran 12 -O0 with run-time checks is the reference semantics',
                'templates are legal for the annotated transformation by construction',
                'reals compared to relative 1e-11, integers exactly']
-BUDGET_S = {'quick': 1200, 'thorough': 3600}
-CASE_TIMEOUT_S = 240
+BUDGET_S = {'quick': 2400, 'thorough': 5400}
+CASE_TIMEOUT_S = 900
 
 HOSTILES = {
     'unroll': ['unroll_neg_step', 'loopvar_after', 'unroll_cycle'],
@@ -50,6 +50,17 @@ HOSTILES = {
     'split': ['split_empty_step', 'loopvar_after', 'block_start_ne_1'],
 }
 KINDS = ['unroll', 'fusion', 'fission', 'interchange', 'split']
+# mechanism names of the hostile constructs (first part of the key of a violation attributed to them)
+MECH = {
+    'unroll_neg_step': 'unroll:negative-step-iterations-dropped',
+    'loopvar_after': '{kind}:loop-variable-value-after-loop-lost',
+    'unroll_cycle': 'unroll:cycle-in-unrolled-body',
+    'fission_promote_lb': 'fission:promoted-scalar-sized-by-upper-bound-only',
+    'fission_array_shape': 'fission:auto-promote-adds-dimension-to-indexed-array',
+    'interchange_project_perm': 'interchange:projected-3-deep-non-reversal-order',
+    'split_empty_step': 'split_loop:zero-trip-loop-with-step',
+    'block_start_ne_1': 'block_loop_arrays:loop-not-1-to-n-step-1',
+}
 
 
 def case_flags(rng, idx):
@@ -154,6 +165,8 @@ def run_case(idx, rng, tier, ctx):
         status, info = evaluate(case, flags, wd, False, cnt)
         if status == 'orig_bad':
             res['inconclusive'] = 'generator defect: ' + info['detail'][:400]
+        elif 'TIMEOUT' in (info.get('detail') or '') or 'TIMEOUT' in (info.get('new_err') or ''):
+            res['inconclusive'] = 'timeout while building/running the transformed program'
         elif status == 'same-text':
             cnt['unchanged'] += 1
         elif status == 'equal':
@@ -169,9 +182,11 @@ def run_case(idx, rng, tier, ctx):
                 s2, i2 = evaluate(case, flags, wd, True, cnt)
                 if s2 in ('equal', 'same-text'):
                     attributed = hostile
-                    key = f'{kind}:{cls}:{hostile}'
+                    key = MECH[hostile].format(kind=kind) + ':' + coarse(cls)
                 elif s2 == 'orig_bad':
                     res['inconclusive'] = 'generator defect (hostile-free kernel): ' + i2['detail'][:300]
+                elif 'TIMEOUT' in (i2.get('detail') or '') or 'TIMEOUT' in (i2.get('new_err') or ''):
+                    res['inconclusive'] = 'timeout while building/running (hostile-free kernel)'
             if not res['inconclusive']:
                 res['violations'].append({
                     'key': key, 'msg': (info.get('detail') or '')[:500],
